@@ -179,7 +179,7 @@ class TransformationPerformer:
       None, update the transformation_inst & tflite_model in place
     """
     instruction = transformation_inst.instructions[transformation_index]
-    if not instruction.producer or instruction.producer < 0:
+    if instruction.producer is None or instruction.producer < 0:
       producer = -1
     elif instruction.producer < len(
         self._original_op_id_map[transformation_inst.subgraph_id]
